@@ -21,7 +21,23 @@ func vPlainByte(name string) byte {
 // vTextElement: a literal of 1..2 plain characters, or an inline expression of some type.
 // Returns the element and its expected rendering.
 func vTextElement(tag string, st *variable.InMemoryStorer) (*tree.LineFormattedTextElement, string) {
-	switch vChoose(tag+".kind", 6) {
+	switch vChoose(tag+".kind", 9) {
+	case 6: // a literal with an escaped bracket (resolved by the markup pass)
+		c := string([]byte{vPlainByte(tag + ".c0")})
+		if vChoose(tag+".which", 2) == 0 {
+			return &tree.LineFormattedTextElement{Text: c + "\\]"}, c + "]"
+		}
+		return &tree.LineFormattedTextElement{Text: c + "\\["}, c + "["
+	case 7: // a negated number literal
+		i := 1 + int(vByte(tag+".i"))
+		return &tree.LineFormattedTextElement{Expression: &tree.Expression{NegativeExpression: vValExpr(variable.NewNumber(float64(i)))}}, strconv.Itoa(-i)
+	case 8: // not <boolean literal>
+		b := vChoose(tag+".b", 2) == 1
+		want := "True"
+		if b {
+			want = "False"
+		}
+		return &tree.LineFormattedTextElement{Expression: &tree.Expression{NotExpression: vValExpr(variable.NewBoolean(b))}}, want
 	case 0:
 		lit := string([]byte{vPlainByte(tag + ".c0")})
 		if vChoose(tag+".two", 2) == 1 {
@@ -92,15 +108,18 @@ func VHLineRendering() {
 	ls, want := vLineStatement("line", vParam("ELEMS", 2), st)
 	tags := []string{"t1", "t2"}[:vChoose("ntags", 3)]
 	ls.Tags = tags
-	dr := vRunnerOver(st, &tree.Statement{LineStatement: ls})
-	el, err := dr.Next(vInt("choice"))
-	vAssert(err == nil && el != nil && el.Line != nil, "a line is returned")
-	if err != nil || el == nil || el.Line == nil {
-		return
+	stmt := &tree.Statement{LineStatement: ls}
+	dr := vRunnerOver(st, stmt, stmt) // the same statement is shown twice (as when its node is entered again)
+	for round := 0; round < 2; round++ {
+		el, err := dr.Next(vInt("choice"))
+		vAssert(err == nil && el != nil && el.Line != nil, "a line is returned")
+		if err != nil || el == nil || el.Line == nil {
+			return
+		}
+		vAssert(el.Line.Text == want, "the text is the literals and the display forms of the inline values, in order")
+		vAssert(vTagsEq(el.Line.Tags, tags), "the tags are returned in order")
+		vAssert(len(el.Line.Attributes) == 0, "plain text carries no markup")
 	}
-	vAssert(el.Line.Text == want, "the text is the literals and the display forms of the inline values, in order")
-	vAssert(vTagsEq(el.Line.Tags, tags), "the tags are returned in order")
-	vAssert(len(el.Line.Attributes) == 0, "plain text carries no markup")
 	vReach("line")
 }
 
@@ -117,7 +136,11 @@ func VHOptionRendering() {
 		tag := "o" + vItoa(i)
 		ls, w := vLineStatement(tag, 1, st)
 		ls.Tags = []string{tag}
-		switch vChoose(tag+".cond", 4) {
+		switch vChoose(tag+".cond", 5) {
+		case 4: // not <boolean literal>
+			b := vChoose(tag+".notlit", 2) == 1
+			ls.Condition = &tree.Expression{NotExpression: vValExpr(variable.NewBoolean(b))}
+			wantDisabled = append(wantDisabled, b)
 		case 0:
 			wantDisabled = append(wantDisabled, false)
 		case 1:
@@ -137,19 +160,22 @@ func VHOptionRendering() {
 		wantText = append(wantText, w)
 		g.Options = append(g.Options, &tree.ShortcutOption{LineStatement: ls})
 	}
-	dr := vRunnerOver(st, &tree.Statement{ShortcutOptionStatement: g})
-	el, err := dr.Next(vInt("choice"))
-	vAssert((err != nil) == bad, "an option group fails exactly when a condition is not a boolean")
-	if err != nil {
-		vReach("bad-condition")
-		return
-	}
-	vAssert(el != nil && el.Line == nil && len(el.Options) == n, "conditions never remove an option")
-	for i := 0; i < n; i++ {
-		o := el.Options[i]
-		vAssert(o.Line != nil && o.Line.Text == wantText[i], "options keep their order and text")
-		vAssert(o.Disabled == wantDisabled[i], "Disabled exactly when the option's condition is false")
-		vAssert(len(o.Line.Tags) == 1 && o.Line.Tags[0] == "o"+vItoa(i), "each option keeps its own tags")
+	stmt := &tree.Statement{ShortcutOptionStatement: g}
+	for round := 0; round < 2; round++ { // the same group is presented twice (as when its node is entered again)
+		dr := vRunnerOver(st, stmt)
+		el, err := dr.Next(vInt("choice"))
+		vAssert((err != nil) == bad, "an option group fails exactly when a condition is not a boolean")
+		if err != nil {
+			vReach("bad-condition")
+			return
+		}
+		vAssert(el != nil && el.Line == nil && len(el.Options) == n, "conditions never remove an option")
+		for i := 0; i < n; i++ {
+			o := el.Options[i]
+			vAssert(o.Line != nil && o.Line.Text == wantText[i], "options keep their order and text")
+			vAssert(o.Disabled == wantDisabled[i], "Disabled exactly when the option's condition is false")
+			vAssert(len(o.Line.Tags) == 1 && o.Line.Tags[0] == "o"+vItoa(i), "each option keeps its own tags")
+		}
 	}
 	vReach("options")
 }
